@@ -18,7 +18,7 @@ if [ -n "$DEMO" ]; then
 fi
 if ! (cd "$D" && patch -p1 -s < "$SD/patch.diff"); then echo "patch does not apply"; exit 3; fi
 (cd "$D" && $GO build ./... && $GO build -tags verif ./...) || { echo "does not build"; exit 3; }
-(cd "$D" && $GO test -vet=off -count=1 ./... 2>&1 | tail -2 | head -1 | sed 's/^/suite with change: /')
+(cd "$D" && $GO test -vet=off -count=1 ./... 2>&1 | grep "^ok\|^FAIL\|^--- FAIL" | head -3 | sed "s/^/suite with change: /")
 if [ -n "$DEMO" ]; then
   cp "$SD/$DEMO" "$D/"
   (cd "$D" && $GO test -count=1 -run 'TestSeed' . >/tmp/seed-demo-mut.$$ 2>&1) && echo "demo with change: PASS (unexpected)" || echo "demo with change: FAIL (as intended)"
